@@ -1,6 +1,7 @@
 (* C15 — Revert is an exact, single inverse (sequential part).  Statements only up to small local lemmas. *)
 From Coq Require Import List ZArith String Bool Lia.
 From LV Require Import Base.Util Ledger.Types Ledger.Core Ledger.VolProofs Ledger.Invariants Ledger.ReplayProofs.
+From LV Require Export Props.C15c.   (* concurrent part: theorems over all schedules of the interleaving model Ledger/Conc.v *)
 Import ListNotations.
 Open Scope Z_scope.
 
